@@ -319,7 +319,8 @@ pub fn run(ctx: &Ctx, rep: &mut Reporter) {
     let rt = tokio::runtime::Builder::new_current_thread().enable_all().build().expect("runtime");
     let mut rng = ctx.rng("socket");
     let mut ids = reqgen::Ids { next_id: rng.u16(), nonce: 1 << 40, shard: ctx.shard };
-    let total = ctx.budget(2_000, 100_000);
+    // quick: a fixed small share (real sockets wait in real time), independent of the quick scale
+    let total = if ctx.is_thorough() { ctx.budget(2_000, 100_000) } else { (2_400 / ctx.nshards).max(48) };
     let mut done = 0u64;
     mon::set_quiet(true);
     rep.must("socket/responses", 1000);
